@@ -16,8 +16,11 @@ use crate::{
         Gf32Bit, Gf40Bit, MultiplyAccumulate, MultiplyAccumulator, PrimeField, Serializable,
         U128Conversions, batch_invert,
     },
-    protocol::prss::FromRandom,
-    secret_sharing::SharedValue,
+    protocol::{context::dzkp_field::DZKPBaseField, prss::FromRandom},
+    secret_sharing::{
+        SharedValue,
+        replicated::{ReplicatedSecretSharing, semi_honest::AdditiveShare},
+    },
 };
 
 fn raw<F: PrimeField + Serializable>(v: u128) -> F {
@@ -374,9 +377,45 @@ fn exec_bool(op: &str, args: &[&str]) -> String {
     }
 }
 
+// ------------------------------------------------------------------ replicated shares, DZKP constants
+// c08.share3 <Field> add|sub s0 s1 s2 t0 t1 t2 | neg s0 s1 s2 | mulconst s0 s1 s2 c
+//   helper i holds AdditiveShare(s_i, s_{i+1}); response: l0 r0 l1 r1 l2 r2 after the local operation.
+fn exec_share3<F>(op: &str, args: &[&str]) -> String
+where
+    F: PrimeField + Serializable,
+{
+    let v: Vec<F> = args.iter().map(|s| raw::<F>(s.parse::<u128>().unwrap())).collect();
+    let helper = |s: &[F], i: usize| AdditiveShare::<F>::new(s[i], s[(i + 1) % 3]);
+    let mut out = vec![];
+    for i in 0..3 {
+        let r: AdditiveShare<F> = match op {
+            "add" => helper(&v[0..3], i) + helper(&v[3..6], i),
+            "sub" => helper(&v[0..3], i) - helper(&v[3..6], i),
+            "neg" => -helper(&v[0..3], i),
+            "mulconst" => helper(&v[0..3], i) * v[3],
+            _ => panic!("harness: unknown op {op}"),
+        };
+        out.push(r.left().as_u128().to_string());
+        out.push(r.right().as_u128().to_string());
+    }
+    out.join(" ")
+}
+
 pub fn exec(req: &str) -> String {
     let t: Vec<&str> = req.split(' ').collect();
     match t[0] {
+        "c08.share3" => match t[1] {
+            "Fp31" => exec_share3::<Fp31>(t[2], &t[3..]),
+            "Fp32BitPrime" => exec_share3::<Fp32BitPrime>(t[2], &t[3..]),
+            "Fp61BitPrime" => exec_share3::<Fp61BitPrime>(t[2], &t[3..]),
+            f => panic!("harness: unknown field {f}"),
+        },
+        "c08.const" => match t[1] {
+            "INVERSE_OF_TWO" => Fp61BitPrime::INVERSE_OF_TWO.as_u128().to_string(),
+            "MINUS_ONE_HALF" => Fp61BitPrime::MINUS_ONE_HALF.as_u128().to_string(),
+            "MINUS_TWO" => Fp61BitPrime::MINUS_TWO.as_u128().to_string(),
+            c => panic!("harness: unknown constant {c}"),
+        },
         "c08.bool" => exec_bool(t[1], &t[2..]),
         "c08.ba" => match t[1] {
             "BA3" => exec_ba_small!(BA3, t[2], &t[3..]),
@@ -564,7 +603,7 @@ fn verif_c08_prime() {
     );
 }
 
-// GF(2)[x] remainder / quotient on bit patterns (harness-side search for factors of POLYNOMIAL).
+// GF(2)[x] arithmetic on bit patterns (harness-side search for factors of POLYNOMIAL, degree <= 63).
 fn poly_divmod(mut a: u128, m: u128) -> (u128, u128) {
     let dm = 127 - m.leading_zeros();
     let mut q = 0u128;
@@ -576,19 +615,68 @@ fn poly_divmod(mut a: u128, m: u128) -> (u128, u128) {
     (q, a)
 }
 
+fn poly_mulmod(a: u128, b: u128, m: u128) -> u128 {
+    let mut r = 0u128;
+    let mut a = a;
+    let mut b = b;
+    while b != 0 {
+        if b & 1 == 1 {
+            r ^= a;
+        }
+        a <<= 1;
+        b >>= 1;
+    }
+    poly_divmod(r, m).1
+}
+
+fn poly_gcd(mut a: u128, mut b: u128) -> u128 {
+    while b != 0 {
+        let r = poly_divmod(a, b).1;
+        a = b;
+        b = r;
+    }
+    a
+}
+
+/// A non-trivial factor of `p` over GF(2), if `p` is reducible: gcd(p, x^(2^i) - x) collects all
+/// irreducible factors of degree dividing i.
+fn poly_factor(p: u128) -> Option<u128> {
+    let k = 127 - p.leading_zeros();
+    if k <= 1 {
+        return None;
+    }
+    let mut x2i: u128 = 2;
+    for i in 1..=(k / 2) {
+        x2i = poly_mulmod(x2i, x2i, p);
+        let g = poly_gcd(p, x2i ^ 2);
+        if g != 1 {
+            if g != p {
+                return Some(g);
+            }
+            // all irreducible factors have degree dividing i (small): trial division
+            for f in 2u128..(1u128 << (i + 1)) {
+                if f != p && poly_divmod(p, f).1 == 0 {
+                    return Some(f);
+                }
+            }
+            return None;
+        }
+    }
+    None
+}
+
 fn gen_gf(rng: &mut Rng, thorough: bool, out: &mut Vec<String>, name: &str, bits: u32, poly: u128, bytes: usize) {
     let f = name;
     let n: u128 = 1u128 << bits;
     let mask = n - 1;
-    // negation side of the field certificate: every factor of POLYNOMIAL of degree <= 12 gives the
-    // zero-divisor pair (factor, cofactor), tried first on the real code.
-    if bits >= 2 {
-        for cand in 2u128..(1u128 << 13.min(bits)) {
-            let (q, r) = poly_divmod(poly, cand);
-            if r == 0 && cand != 1 && q != 1 {
-                out.push(format!("c08.gf {f} mul {cand} {q}"));
-                out.push(format!("c08.gf {f} mul {q} {cand}"));
-            }
+    // negation side of the field certificate: a non-trivial factorisation POLYNOMIAL = g * h gives the
+    // zero-divisor pair (g, h), tried first on the real code.
+    if let Some(g) = poly_factor(poly) {
+        let (h, r) = poly_divmod(poly, g);
+        assert!(r == 0, "harness: factor search is broken");
+        if g >> bits == 0 && h >> bits == 0 {
+            out.push(format!("c08.gf {f} mul {g} {h}"));
+            out.push(format!("c08.gf {f} mul {h} {g}"));
         }
     }
     let mut boundary: Vec<u128> = vec![0, 1, 2, 3, mask, mask - 1 & mask, mask >> 1, (mask >> 1) + 1, poly & mask, (poly >> 1) & mask];
@@ -918,6 +1006,39 @@ fn verif_c08_ba() {
                 ("BA112", 112, true), ("BA144", 144, false), ("BA256", 256, false),
             ] {
                 gen_ba(rng, thorough, &mut out, name, bits, small);
+            }
+            out
+        },
+        exec,
+    );
+}
+
+#[test]
+fn verif_c08_shares() {
+    run_suite(
+        "c08_shares",
+        |rng, thorough| {
+            let mut out = vec![];
+            for c in ["INVERSE_OF_TWO", "MINUS_ONE_HALF", "MINUS_TWO"] {
+                out.push(format!("c08.const {c}"));
+            }
+            for (f, p) in [
+                ("Fp31", u128::from(Fp31::PRIME)),
+                ("Fp32BitPrime", u128::from(Fp32BitPrime::PRIME)),
+                ("Fp61BitPrime", u128::from(Fp61BitPrime::PRIME)),
+            ] {
+                let corner = [0u128, 1, p - 1, p - 2, p / 2, p / 2 + 1];
+                let n = if thorough { 4_000 } else { 300 };
+                for k in 0..n {
+                    let mut e = |rng: &mut Rng| if k < 60 || rng.below(4) == 0 { *rng.pick(&corner) } else { rng.next_u128() % p };
+                    let v: Vec<u128> = (0..7).map(|_| e(rng)).collect();
+                    out.push(format!("c08.share3 {f} add {} {} {} {} {} {}", v[0], v[1], v[2], v[3], v[4], v[5]));
+                    out.push(format!("c08.share3 {f} sub {} {} {} {} {} {}", v[0], v[1], v[2], v[3], v[4], v[5]));
+                    out.push(format!("c08.share3 {f} neg {} {} {}", v[0], v[1], v[2]));
+                    out.push(format!("c08.share3 {f} mulconst {} {} {} {}", v[0], v[1], v[2], v[6]));
+                }
+                out.push(format!("c08.share3 {f} neg 0 0 0"));
+                out.push(format!("c08.share3 {f} sub 0 0 0 0 0 0"));
             }
             out
         },
